@@ -32,15 +32,15 @@ def _flat(trees):
   return out
 
 
-def decide_equal(ctx, name, config, fn_impl, fn_spec, arg_shapes, logic='QF_UFLRA', assumptions_fn=None, eps=0.0, replay_args=None):
+def decide_equal(ctx, name, config, fn_impl, fn_spec, arg_shapes, logic='QF_UFLRA', assumptions_fn=None, eps=0.0, replay_args=None, box=None):
   """Interprets both functions on the same symbolic arguments and asks the solver for inputs on
   which any output element differs."""
   sp = TermSpace()
   args = [TermArr.variables(sp, f'a{i}', shp) for i, shp in enumerate(arg_shapes)]
   ex = [jnp.zeros(shp) for shp in arg_shapes]
   t0 = time.time()
-  ci, si = jax.make_jaxpr(fn_impl, return_shape=True)(*ex)
-  cs, ss = jax.make_jaxpr(fn_spec, return_shape=True)(*ex)
+  ci, si = jax.make_jaxpr(lambda *a_: fn_impl(*a_), return_shape=True)(*ex)     # fresh function objects: jax caches traces per function
+  cs, ss = jax.make_jaxpr(lambda *a_: fn_spec(*a_), return_shape=True)(*ex)
   shapes_i = [tuple(x.shape) for x in jax.tree_util.tree_leaves(si)]
   shapes_s = [tuple(x.shape) for x in jax.tree_util.tree_leaves(ss)]
   if shapes_i != shapes_s or jax.tree_util.tree_structure(si) != jax.tree_util.tree_structure(ss):
@@ -65,6 +65,21 @@ def decide_equal(ctx, name, config, fn_impl, fn_spec, arg_shapes, logic='QF_UFLR
   ok = True
   if diffs:
     assume = assumptions_fn(sp, args) if assumptions_fn else []
+    if box is not None:
+      # data box: every argument and every value of an uninterpreted function lies in [-box, box] (needed for an absolute tolerance)
+      bq = z3.RealVal(smt.Fraction(float(box)))
+      seen = set()
+
+      def walk(e):
+        if e.get_id() in seen:
+          return
+        seen.add(e.get_id())
+        if z3.is_app(e) and e.decl().kind() == z3.Z3_OP_UNINTERPRETED and e.sort() == z3.RealSort():
+          assume.append(z3.And(e >= -bq, e <= bq))
+        for c_ in e.children():
+          walk(c_)
+      for d_ in diffs:
+        walk(d_)
     v, model = smt.check_z3(assume + [z3.Or(*diffs)], logic, 60000, want_model=True)
     nq = 1
     if v == 'sat' and assumptions_fn is not None:
@@ -214,6 +229,46 @@ def task_accumulate(ctx):
         acc = (acc[0] + w[i] * u[0], acc[1] + w[i] * u[1])
       return acc
     decide_equal(ctx, 'accumulate_repeated.equals_weighted_sum', dict(n=n), impl, spec, [(2,), (2,), (n,)], logic='QF_UFNRA')
+  # digital filter initialisation equals its defining sum  w0 x + sum_n w_n (F^n x + B^n x)  with the normalised Lanczos weights of
+  # Lynch & Huang (1992), computed here independently; forward and backward steps are DIFFERENT uninterpreted functions (the solver
+  # factory is called with the equation and its time reversal).  Evaluated twice per parameter set: the second evaluation must not
+  # see anything left behind by the first (call-history independence).
+  import math
+
+  def lanczos_spec(span, cutoff, dt):
+    N = round(span / (2 * dt))
+    sinc = lambda x: 1.0 if x == 0 else math.sin(math.pi * x) / (math.pi * x)
+    w = [sinc(n / (N + 1)) * sinc(n * span / (cutoff * N)) for n in range(1, N + 1)]
+    tot = 1.0 + 2 * sum(w)
+    return 1.0 / tot, [x / tot for x in w]
+
+  def fstep(u):
+    return (uf('fwd_a', u[0], u[1]), uf('fwd_b', u[0], u[1]))
+
+  def bstep(u):
+    return (uf('bwd_a', u[0], u[1]), uf('bwd_b', u[0], u[1]))
+
+  def solver2(eq, dt_):
+    return bstep if isinstance(eq, ti.TimeReversedImExODE) else fstep
+  for (span, cutoff, dt) in ((6.0, 6.0, 1.0), (4.0, 3.0, 0.5), (3.0, 6.0, 0.25)):
+    w0, w = lanczos_spec(span, cutoff, dt)
+
+    def impl2(a, b):
+      return ti.digital_filter_initialization(ti.ImplicitExplicitODE(), solver2, [filt(0)], span, cutoff, dt)((a, b))
+
+    def spec2(a, b):
+      x = (a, b)
+      acc = (w0 * a, w0 * b)
+      for stp in (fstep, bstep):
+        u = x
+        for wn in w:
+          un = stp(u)
+          u = filt(0)(u, un)
+          acc = (acc[0] + wn * u[0], acc[1] + wn * u[1])
+      return acc
+    for call in ('first', 'repeat'):
+      decide_equal(ctx, 'digital_filter_initialization.equals_defining_sum', dict(time_span=span, cutoff_period=cutoff, dt=dt, N=len(w), evaluation=call),
+                   impl2, spec2, [(2,), (2,)], logic='QF_UFLRA', eps=1e-12, box=1.0)
   # digital filter initialisation returns a steady state unchanged (step(x0) = x0 axiomatised for THIS x0)
   for (span, cutoff, dt) in ((6.0, 6.0, 1.0), (4.0, 3.0, 0.5)):
     def solver(eq, dt_):
